@@ -76,6 +76,7 @@ class VList:
         self.items = list(items)
         self.kind = kind     # list | ndarray
         self.owner = None    # name of the parameter this object was passed in as (frame tracking)
+        self.attrs = {}      # e.g. layout='any' (set by a contract on an input array: memory layout unconstrained)
 
     def __repr__(self):
         return '[%s]' % ', '.join(vrepr(a) for a in self.items)
@@ -1547,9 +1548,35 @@ class Executor:
             return obj.attrs[name]
         if name in ('ravel', 'flatten') and obj.kind == 'ndarray':
             def ravel(*a, **k):
-                if a or k:
-                    raise Unsupported('ravel with an order argument')
-                return VList(self._flat_leaves(obj), 'ndarray')        # logical (C) order
+                order = exact(a[0]) if a else exact(k.get('order', 'C'))
+                if len(a) > 1 or set(k) - {'order'} or order not in ('C', 'F', 'K', 'A'):
+                    raise Unsupported('ravel arguments')
+
+                def f_order():
+                    shp = self.list_method(obj, 'shape')
+                    import itertools as _it
+                    idxs = sorted(_it.product(*[range(n) for n in shp]), key=lambda t: tuple(reversed(t)))
+                    cur = []
+                    for t in idxs:
+                        v = obj
+                        for i in t:
+                            v = v.items[i]
+                        cur.append(v)
+                    return VList(cur, 'ndarray')
+                if order == 'C':
+                    return VList(self._flat_leaves(obj), 'ndarray')        # logical (C) order
+                if order == 'F':
+                    return f_order()
+                # 'K' / 'A': the order of the elements depends on the memory layout, which the value of an array does not determine.  For an
+                # array marked by the contract as an input of arbitrary layout both a C- and an F-contiguous layout are explored.
+                if getattr(obj, 'attrs', {}).get('layout') != 'any':
+                    raise Unsupported("ravel(order=%r) of an array whose memory layout is not modelled" % order)
+                shp = self.list_method(obj, 'shape')
+                if len(shp) <= 1:
+                    return VList(self._flat_leaves(obj), 'ndarray')
+                if self.ctx.decide(named_bool('f_contiguous(%s)' % (getattr(obj, 'owner', None) or 'array'))):
+                    return f_order()
+                return VList(self._flat_leaves(obj), 'ndarray')
             return PyFn(ravel, 'ndarray.' + name)
         if name == 'reshape' and obj.kind == 'ndarray':
             def reshape(*shp):
